@@ -59,10 +59,14 @@ def cases(tier, seed):
              ("2000,5000", [{"kind": "int", "start": 2000}, {"kind": "int", "start": 5000}]),
              ("4000, 2000B", [{"kind": "int", "start": 4000}, {"kind": "b", "start": 2000}]),
              ("10000,2000N", [{"kind": "int", "start": 10000}, {"kind": "n", "start": 2000}])]
-    for spec, items in (specs if tier == "thorough" else specs[:13:1]):
+    for spec, items in specs:
         lens = [2_000_000, 1_000_000]
         yield "zm.resspec", {"spec": spec, "items": items, "binsize": 1000, "lens": lens,
                              "maxres": -(-sum(lens) // 256)}
+    # genome sizes at which the aliases differ from one another (small: < 512 kb; large: > 5.12 Mb)
+    for lens in ([300_000], [4_000_000, 2_500_000]):
+        for spec, items in (specs[0], specs[2], specs[4], specs[6]):
+            yield "zm.resspec", {"spec": spec, "items": items, "binsize": 1000, "lens": lens, "maxres": -(-sum(lens) // 256)}
 
 
 def nontrivial(drv, case, obs):
